@@ -9,6 +9,7 @@ package decor
 
 //@ iface Decorator.Decor
 //@   params   stat
+//@   requires self != nil
 //@   modifies pkgstate("decor"), sent("chan int"), recvd("chan int")
 //@   ensures  honest: result1 >= 0 && dw(result0) == result1
 
@@ -76,12 +77,18 @@ package decor
 //@ iface Synchronizer.Sync
 //@   modifies nothing
 
+// adapter from a user function to the interface: the function is the user's
+//@ func (TimeNormalizerFunc).Normalize
+//@   props    C20
+//@   trusted
+
 //@ iface TimeNormalizer.Normalize
 //@   params   src
 //@   modifies pkgstate("decor")
 
 //@ iface Formatter.Format
 //@   params   str
+//@   requires initialised: hasType(self, "WC") ==> unboxAs(self, "WC").fill != nil && ((unboxAs(self, "WC").C & DSyncWidth) != 0 ==> unboxAs(self, "WC").wsync != nil) // a bare WC is never a Decorator; an uninitialised width config is a documented panic
 //@   modifies sent("chan int"), recvd("chan int")
 //@   ensures  honest: result1 >= 0 && dw(result0) == result1
 
